@@ -71,6 +71,9 @@ type Contract struct {
 	// options
 	Opts map[string]string
 	used bool
+	// a parameter or named result that was renamed in the code: old name (still used by the contract) -> new name
+	alias     map[string]string
+	aliasDone bool
 }
 
 type SpecFunc struct {
@@ -592,5 +595,122 @@ func (c *Contract) Views() []string {
 		out = append(out, g)
 	}
 	sort.Strings(out)
+	return out
+}
+
+// mentions: does any clause of the contract use the identifier?
+func (c *Contract) mentions(name string) bool {
+	found := false
+	visit := func(e ast.Expr) {
+		if e == nil || found {
+			return
+		}
+		ast.Inspect(e, func(n ast.Node) bool {
+			if id, ok := n.(*ast.Ident); ok && id.Name == name {
+				found = true
+			}
+			return !found
+		})
+	}
+	for _, cl := range c.Requires {
+		visit(cl.Expr)
+	}
+	for _, cl := range c.Ensures {
+		visit(cl.Expr)
+	}
+	for _, cl := range c.PanicsIf {
+		visit(cl.Expr)
+	}
+	for _, cl := range c.Modifies {
+		visit(cl.Expr)
+	}
+	for _, l := range c.Lets {
+		visit(l.C.Expr)
+		if l.Name == name {
+			found = true
+		}
+	}
+	for _, cs := range c.LoopInv {
+		for _, cl := range cs {
+			visit(cl.Expr)
+		}
+	}
+	for _, cs := range c.AssertAt {
+		for _, cl := range cs {
+			visit(cl.Expr)
+		}
+	}
+	return found
+}
+
+// freeIdents: identifiers the clauses use as values (not selector fields, not called functions, not quantifier binders)
+func (c *Contract) freeIdents(semanticOnly bool) map[string]bool {
+	out := map[string]bool{}
+	bound := map[string]bool{}
+	var visit func(e ast.Node)
+	visit = func(e ast.Node) {
+		if e == nil {
+			return
+		}
+		ast.Inspect(e, func(n ast.Node) bool {
+			switch v := n.(type) {
+			case *ast.SelectorExpr:
+				visit(v.X)
+				return false
+			case *ast.CallExpr:
+				if id, ok := v.Fun.(*ast.Ident); ok {
+					switch id.Name {
+					case "forall", "exists", "forallKeys", "existsKeys":
+						if len(v.Args) > 0 {
+							if b, ok := v.Args[0].(*ast.Ident); ok {
+								bound[b.Name] = true
+							}
+						}
+					}
+				} else {
+					visit(v.Fun)
+				}
+				for _, a := range v.Args {
+					visit(a)
+				}
+				return false
+			case *ast.CompositeLit:
+				if v.Type != nil {
+					visit(v.Type)
+				}
+				return false
+			case *ast.Ident:
+				out[v.Name] = true
+			}
+			return true
+		})
+	}
+	each := func(cs []Clause) {
+		for _, cl := range cs {
+			if cl.Expr != nil {
+				visit(cl.Expr)
+			}
+		}
+	}
+	each(c.Requires)
+	each(c.Ensures)
+	each(c.PanicsIf)
+	each(c.Modifies)
+	for _, l := range c.Lets {
+		if l.C.Expr != nil {
+			visit(l.C.Expr)
+		}
+	}
+	if !semanticOnly {
+		for _, cs := range c.LoopInv {
+			each(cs)
+		}
+		for _, cs := range c.AssertAt {
+			each(cs)
+		}
+	}
+	for b := range bound {
+		delete(out, b)
+	}
 	return out
 }
